@@ -23,13 +23,14 @@ MENU = [
     ('[class=""]', 'class', '', None),         # an empty class mention: whether it contributes a space of its own is left open
     ('[class]', 'class', None, None),          # value-less first mention of a class: later mentions still merge into it
     ('[Checked]', 'Checked', None, 'listed'),
+    ('[a.]', 'a', None, 'bool'),                 # the boolean marker on the LAST mention of a repeated attribute (see run_shard)
     ('[zed]', 'zed', None, 'listed-explicit'),       # boolean only under the explicit list: the two lists alternate within one process
     ('[!m=""]', 'm', '', 'implied'),               # an implied attribute with an explicit empty value is written      # HTML attribute names are case-insensitive: still the listed boolean attribute
     ('..c3', 'class', 'c3', None),        # doubled shorthand: still a class attribute (html / xml syntaxes only, see run_shard)
 ]
 # sequences longer than three mentions continue with the mentions that take part in merging (ids, classes, the attribute `a`
 # in every value form, a boolean, an implied one); the first mention still ranges over the whole menu
-CORE_SOURCES = ['#i1', '.c1', '[a=v1]', '[a="q v"]', '[a]', '.c2', '#i2', "[a='s']", '[g.]', '[!d]', '[e={x}]', '[class=k]',
+CORE_SOURCES = ['[a.]', '#i1', '.c1', '[a=v1]', '[a="q v"]', '[a]', '.c2', '#i2', "[a='s']", '[g.]', '[!d]', '[e={x}]', '[class=k]',
                 '[class]', '[class=""]', '[disabled]', '[a=""]']
 OPTION_SPACE = {
     'output.attributeQuotes': ['double', 'single'],
@@ -118,6 +119,8 @@ def reference(ms, opts, syntax, explicit_list):
                 d[name][0] = val if (val is not None or pv is None) else pv
         elif not rev:
             d[name][0] = val
+            if flag == 'bool':
+                d[name][1] = 'bool'
     q = "'" if opts.get('output.attributeQuotes') == 'single' else '"'
     amap = opts.get('markup.attributes') or NAME_MAP.get(syntax, {})
     case = opts.get('output.attributeCase')
@@ -239,8 +242,10 @@ def run_shard(shard, ctx, tier):
         for rest in itertools.product(MENU if n <= 3 else core, repeat=n - 1):
             ms = (first,) + rest
             names = [m[1] for m in ms]
-            if any(m[3] and names.count(m[1]) > 1 for m in ms):
-                continue
+            if any(m[3] and names.count(m[1]) > 1 and not (m[0] == '[a.]' and all(x[1] != 'a' for x in ms[ms.index(m) + 1:]))
+                   for m in ms):
+                continue                  # flags on repeated mentions are left unspecified, except a boolean marker on the last one
+            bool_last = any(m[0] == '[a.]' for m in ms) and names.count('a') > 1
             doubled = any(m[0].startswith('..') for m in ms)
             merged = len(set(names)) < len(names)
             brackets_adjacent = any(ms[i][0][0] == '[' and ms[i + 1][0][0] == '[' for i in range(n - 1))
@@ -249,6 +254,8 @@ def run_shard(shard, ctx, tier):
                     if doubled and syntax in ('jsx', 'vue'):
                         continue        # `class*` mappings / value prefixes of these syntaxes are left unspecified
                     for opts in osets:
+                        if bool_last and opts.get('output.reverseAttributes'):
+                            continue          # first value wins there: which flags survive is left unspecified
                         for bl in bls:
                             ctx.tick((ms, opts))
                             ctx.states += 1
